@@ -231,6 +231,57 @@ def r_cache(E):
                     f"{q} mutates in place ({what}) the object returned by {cf}(), which is decorated with a cache: every "
                     f"later call with the same arguments — and every value already built on it — sees the mutated object",
                     rel, node.lineno, q, {"clauses": [tag]}))
+    # a memo kept on a class attribute: `if cls.X is None: cls.X = <computed from cls>` reads X through the MRO, so a
+    # subclass finds the value its parent computed (for the parent's tables) and never computes its own
+    for mod, (rel, tree, src) in sorted(pm.modules.items()):
+        for fn in [n for n in ast.walk(tree) if isinstance(n, ast.FunctionDef) and n.args.args
+                   and any(norm(d) == "classmethod" for d in n.decorator_list)]:
+            c0 = fn.args.args[0].arg
+            for st in [x for x in ast.walk(fn) if isinstance(x, ast.If)]:
+                t = st.test
+                attr = None
+                if isinstance(t, ast.Compare) and len(t.ops) == 1 and isinstance(t.ops[0], ast.Is) \
+                        and isinstance(t.left, ast.Attribute) and norm(t.left.value) == c0 \
+                        and isinstance(t.comparators[0], ast.Constant) and t.comparators[0].value is None:
+                    attr = t.left.attr
+                elif isinstance(t, ast.UnaryOp) and isinstance(t.op, ast.Not) and isinstance(t.operand, ast.Attribute) \
+                        and norm(t.operand.value) == c0:
+                    attr = t.operand.attr
+                if attr is None:
+                    continue
+                store = next((a for a in ast.walk(st) if isinstance(a, ast.Assign) and any(
+                    isinstance(tg, ast.Attribute) and norm(tg.value) == c0 and tg.attr == attr for tg in a.targets)), None)
+                if store is None:
+                    continue
+                res.instances += 1
+                uses_cls = any(isinstance(x, ast.Name) and x.id == c0 for x in ast.walk(store.value))
+                cls_node = getattr(fn, "_parent", None)
+                has_sub = isinstance(cls_node, ast.ClassDef) and bool(pm.subclasses(cls_node.name))
+                if uses_cls and has_sub:
+                    q = f"{cls_node.name}.{fn.name}"
+                    res.findings.append(Finding(
+                        "R-CACHE", f"{q} :: class-attribute memo {attr} is inherited",
+                        f"{q} memoises `{norm(store.value)[:60]}` in the class attribute `{c0}.{attr}` and tests it with "
+                        f"`{norm(t)[:40]}`: attribute lookup follows the MRO, so once a parent class has filled its memo, "
+                        f"a subclass (BoaviztaCloudServer under Server) reads the parent's value and never builds its own "
+                        f"— what the subclass adds (its own allowed values) is ignored", rel, st.lineno, q,
+                        {"clauses": [_tag(rel), "model"]}))
+    # a factory of model objects / values is not memoised: the caller who asks for "a" France twice and gives one to each
+    # usage pattern must get two objects — with one shared object an edit of one pattern's country moves the other's footprints
+    hier = set(pm.classes_in_hierarchies()) if hasattr(pm, "classes_in_hierarchies") else set()
+    for name, (rel, f) in sorted(cached.items()):
+        for r in [x for x in ast.walk(f) if isinstance(x, ast.Return) and x.value is not None]:
+            v = fully_expanded(r.value, f)
+            built = [norm(c.func).split(".")[-1] for c in ast.walk(v) if isinstance(c, ast.Call)]
+            made = [b for b in built if b in hier or b in pm.classes and (
+                "ModelingObject" in pm.mro(b) or "ObjectLinkedToModelingObj" in pm.mro(b))]
+            if made:
+                res.findings.append(Finding(
+                    "R-CACHE", f"{name} :: cached factory of {made[0]}",
+                    f"{name}() is decorated with a cache and returns a new {made[0]}: every call hands out the *same* "
+                    f"object, so two parts of a model that each asked for their own (two usage patterns calling "
+                    f"Countries.FRANCE()) share one, and editing it for one changes the other's footprints", rel,
+                    r.lineno, name, {"clauses": [_tag(rel), "factory", "model"]}))
     res.breakdown = {"cached_functions": sorted(cached), "functions_scanned": scanned}
     if scanned < 300:
         raise AnalysisError(f"R-CACHE scanned only {scanned} functions")
